@@ -190,7 +190,7 @@ pub fn chaos_case(ctx: &Ctx, case: u64, acc: &mut Acc, opts: &ChaosOpts) -> Resu
 
 pub fn default_opts(arm: Arm, ctx: &Ctx) -> ChaosOpts {
     let _ = ctx;
-    ChaosOpts { arm, steps: 400, dup_timers: !arm.c13, set_config: true, panic_is_violation: false }
+    ChaosOpts { arm, steps: if cfg!(miri) { 40 } else { 400 }, dup_timers: !arm.c13, set_config: true, panic_is_violation: false }
 }
 
 /// Standard wrapper: run, count non-trivial cases by `interesting`
